@@ -121,10 +121,10 @@ static double LATE_SIGMA_MIN = 1e-3, LATE_SIGMA_MAX = 1e-1;
 // in the soak on the unchanged solver every failure (151 of 16000 solves, all at 'loose') had a pair coupling
 // <= 1.6e-3, i.e. below ~2 tol, where the family degenerates into the known (approximately) decoupled-block weakness.
 static double LATE_PAIR_MIN = 1e-2, LATE_PAIR_MAX = 1e-1;
-static double LATE_PAIR_LOW_SHARE = 0.7;  // share of pairs with a coupling in [min, 3 min]
-static double LATE_TIGHT_SHARE = 0.85;    // share of solves with a tight search-space limit
-static double LATE_LOOSE_SHARE = 0.7;     // share of solves at tolerance 'loose'
-static long LATE_SOLVES_PER_MATRIX = 6;
+static double LATE_PAIR_LOW_SHARE = 0.9;  // share of pairs with a coupling in [min, 3 min]
+static double LATE_TIGHT_SHARE = 0.9;    // share of solves with a tight search-space limit
+static double LATE_LOOSE_SHARE = 0.8;     // share of solves at tolerance 'loose'
+static long LATE_SOLVES_PER_MATRIX = 4;
 struct Mat {
   std::string family;
   uint64_t gen_seed;  // the matrix is a pure function of (family parameters, gen_seed): replayable
